@@ -14,6 +14,7 @@ package verifharness
 
 import (
 	"fmt"
+	"reflect"
 	"testing"
 
 	"github.com/boz/kcache/filter"
@@ -81,6 +82,11 @@ func c17Rebuild(tm *term) string {
 	}
 	if c, ok := f1.(filter.ComparableFilter); !ok || !c.Equals(f2) {
 		return fmt.Sprintf("comparable filter built twice from the same arguments: Equals is false: %s", tm)
+	}
+	// ... and from the very same argument values (one slice, one map, one set of source objects)
+	g1, g2 := tm.buildTwice()
+	if !filter.FiltersEqual(g1, g2) || !filter.FiltersEqual(g2, g1) || !filter.FiltersEqual(f1, g2) {
+		return fmt.Sprintf("comparable filter built twice from the same argument values (the same slice / map / objects passed twice) compares unequal: %s", tm)
 	}
 	return ""
 }
@@ -200,6 +206,14 @@ func c17Atoms() []*term {
 // thorough: binary And/Or over all atoms, pairs sharded.
 func TestC17_Enum(t *testing.T) {
 	atoms := c17Atoms()
+	// the generator's claim about its own FN predicates (recorded in the evidence, not an oracle)
+	shared := true
+	for i := 1; i < len(fnPreds); i++ {
+		shared = shared && reflect.ValueOf(fnPreds[i]).Pointer() == reflect.ValueOf(fnPreds[0]).Pointer()
+	}
+	if shared {
+		statLabel("C17", "fn_predicates_are_closures_of_one_literal_sharing_a_code_pointer", 1)
+	}
 	var terms []*term
 	terms = append(terms, atoms...)
 	if tierThorough() {
